@@ -5,7 +5,7 @@
 From Coq Require Import List NArith ZArith Bool.
 Import ListNotations.
 From Emu.Common Require Import Bytes Str StrProofs.
-From Emu.BT Require Import Types Mutate Server Conc ConcProofs.
+From Emu.BT Require Import Types Mutate Server CellSpec MutateProofs RmwProofs Conc ConcProofs.
 Local Open Scope Z_scope.
 
 (* ---- the lock structure ---- *)
@@ -93,6 +93,95 @@ Theorem C06_commit_order_is_lock_order : forall s0 progs sched,
 Proof. exact commit_order_is_lock_order_init. Qed.
 Print Assumptions C06_commit_order_is_lock_order.
 
+(* ---- (b) real-time order ---- *)
+
+(* if request A (of thread i) answers at the step after [sa], and request B (of thread j) is
+   still not started after [sa ++ i :: sb], then in the log of every extension A's entry comes
+   before B's: the log splits as La ++ Lb, A's entry (with the answer A received) is in La, and
+   La has no entry of B nor of any later request of B's thread.  (thread, ev_rem) names a request *)
+Theorem C06_conc_realtime : forall s0 progs sa i sb j cA restA pA cB restB r,
+  no_gc_progs progs ->
+  let st0 := init_cstate s0 progs in
+  let st1 := fst (crun st0 sa) in
+  thread_at st1 i cA restA pA -> snd (cstep st1 i) = ODone r ->
+  let st2 := fst (crun st0 (sa ++ i :: sb)) in
+  thread_at st2 j cB restB PNew ->
+  forall sc,
+  exists La Lb ea,
+    lin_log st0 ((sa ++ i :: sb) ++ sc) = La ++ Lb
+    /\ In ea La /\ ev_tid ea = i /\ ev_tag ea = (cA, length restA) /\ ev_resp ea = r
+    /\ forall eb, In eb La -> ev_tid eb = j -> (length restB < ev_rem eb)%nat.
+Proof. exact conc_realtime. Qed.
+Print Assumptions C06_conc_realtime.
+
+(* ---- (c) concurrent increments add up ---- *)
+Theorem C06_conc_increments_add_up : forall s0 tbl key fam q v0 progs sched,
+  server_ok s0 -> counter_at s0 tbl key fam q v0 ->
+  Forall (fun p => exists c, p = [c] /\ is_incr tbl key fam q c) progs ->
+  let st := fst (crun (init_cstate s0 progs) sched) in
+  (forall j, todo_at st j = []) ->
+  counter_at (cs_server st) tbl key fam q (wrap64 (v0 + Z.of_nat (length progs))).
+Proof. exact conc_increments_add_up. Qed.
+Print Assumptions C06_conc_increments_add_up.
+
+(* the sequential fact behind it: a run of increments adds their number *)
+Theorem C06_run_incrs : forall tbl key fam q calls s v, server_ok s -> counter_at s tbl key fam q v ->
+  Forall (is_incr tbl key fam q) calls ->
+  counter_at (fst (run s calls)) tbl key fam q (wrap64 (v + Z.of_nat (length calls))).
+Proof. exact run_incrs. Qed.
+Print Assumptions C06_run_incrs.
+
+(* ---- (d) two conditional writes ---- *)
+Theorem C06_conc_cam_exclusive : forall s0 cA cB sched rA rB,
+  is_gc (cl_req cA) = false -> is_gc (cl_req cB) = false ->
+  is_read (cl_req cA) = false -> is_read (cl_req cB) = false ->
+  (br_body (snd (step s0 cA)) = YMatched true -> br_body (snd (step (fst (step s0 cA)) cB)) <> YMatched true) ->
+  (br_body (snd (step s0 cB)) = YMatched true -> br_body (snd (step (fst (step s0 cB)) cA)) <> YMatched true) ->
+  let outs := snd (crun (init_cstate s0 [[cA]; [cB]]) sched) in
+  In rA (done_of 0 sched outs) -> In rB (done_of 1 sched outs) ->
+  ~ (br_body rA = YMatched true /\ br_body rB = YMatched true).
+Proof. exact conc_cam_exclusive. Qed.
+Print Assumptions C06_conc_cam_exclusive.
+
+(* ---- (e) failure atomicity (sequential) ---- *)
+
+(* EVERY request answered with an error leaves the whole server exactly as it was *)
+Theorem C06_failure_atomic : forall s c, br_code (snd (step s c)) <> cOK -> fst (step s c) = s.
+Proof. exact failure_atomic. Qed.
+Print Assumptions C06_failure_atomic.
+
+Theorem C06_failure_atomic_row : forall s c tbl key, br_code (snd (step s c)) <> cOK ->
+  option_map (fun t => get_row t key) (alookup tbl (fst (step s c)))
+  = option_map (fun t => get_row t key) (alookup tbl s).
+Proof. exact failure_atomic_row. Qed.
+Print Assumptions C06_failure_atomic_row.
+
+(* MutateRows: the fold of [mrows_step] over the entries; an entry whose status is not OK leaves
+   the table exactly as the entries before it left it *)
+Theorem C06_step_mutate_rows : forall s tbl entries now coins,
+  step s (mkCall (BMutateRows tbl entries) now coins) =
+  match alookup tbl s with
+  | None => (s, fail cNotFound)
+  | Some t => (set_table s tbl (fst (fold_left (mrows_step now) entries (t, []))),
+               ok (YEntries (snd (fold_left (mrows_step now) entries (t, [])))))
+  end.
+Proof. exact step_mutate_rows. Qed.
+Print Assumptions C06_step_mutate_rows.
+
+Theorem C06_mutate_rows_entry_atomic : forall now ta cs e,
+  exists code, snd (mrows_step now (ta, cs) e) = cs ++ [code]
+               /\ (code <> cOK -> fst (mrows_step now (ta, cs) e) = ta).
+Proof. exact mutate_rows_entry_atomic. Qed.
+Print Assumptions C06_mutate_rows_entry_atomic.
+
+(* ---- (f) no torn read ---- *)
+Theorem C06_no_torn_read : forall s0 progs sched, no_gc_progs progs ->
+  let L := lin_log (init_cstate s0 progs) sched in
+  forall k e, nth_error L k = Some e -> ev_exact e = true ->
+    ev_resp e = snd (step (fst (run s0 (map ev_call (firstn k L)))) (ev_call e)).
+Proof. exact no_torn_read. Qed.
+Print Assumptions C06_no_torn_read.
+
 (* ---- non-vacuity ---- *)
 Definition C06_tbl : bytes := [112; 47; 116; 97; 98; 108; 101; 115; 47; 116]%N.   (* "p/tables/t" *)
 Definition C06_s0 : server :=
@@ -123,3 +212,51 @@ Example C06_read_linearises_at_its_section :
   /\ map ev_resp (lin_log st0 sched) = snd (run (fst (run C06_s0 [C06_w 1])) [C06_r; C06_w 2])
   /\ map ev_resp (done_log st0 sched) <> snd (run (fst (run C06_s0 [C06_w 1])) [C06_w 2; C06_r]).
 Proof. vm_compute. repeat split. discriminate. Qed.
+
+(* real time: the hypotheses of C06_conc_realtime are met (writer 0 answers, then writer 1 starts) *)
+Example C06_realtime_hyps :
+  let st0 := init_cstate C06_s0 [[C06_w 1]; [C06_w 2]] in
+  let sa := [0; 0]%nat in
+  thread_at (fst (crun st0 sa)) 0 (C06_w 1) [] (PMid 0)
+  /\ snd (cstep (fst (crun st0 sa)) 0) = ODone (ok YNone)
+  /\ thread_at (fst (crun st0 (sa ++ [0%nat]))) 1 (C06_w 2) [] PNew
+  /\ map ev_tid (lin_log st0 ((sa ++ [0%nat]) ++ [1; 1; 1]%nat)) = [0; 1]%nat.
+Proof. vm_compute. repeat split. Qed.
+
+(* three concurrent increments of a counter holding 5, interleaved: the counter ends at 8 *)
+Definition C06_ctr (v : N) : bytes := [0; 0; 0; 0; 0; 0; 0; v]%N.
+Definition C06_s1 : server :=
+  fst (run [] [mkCall (BCreateTable [112%N] [116%N] [([102%N], None)]) 0 [];
+               mkCall (BMutateRow C06_tbl [114%N] [SetCell [102%N] [113%N] 1000 (C06_ctr 5)]) 0 []]).
+Definition C06_inc (now : Z) : call := mkCall (BReadModifyWrite C06_tbl [114%N] [RIncrement [102%N] [113%N] 1]) now [].
+
+Example C06_increments :
+  server_ok C06_s1
+  /\ counter_at C06_s1 C06_tbl [114%N] [102%N] [113%N] 5
+  /\ let st := fst (crun (init_cstate C06_s1 [[C06_inc 7000]; [C06_inc 500]; [C06_inc 3000]])
+                         [0; 1; 2; 1; 0; 2; 1; 1; 0; 0; 2; 2]%nat) in
+     (forall j, todo_at st j = [])
+     /\ counter_at (cs_server st) C06_tbl [114%N] [102%N] [113%N] 8.
+Proof.
+  split; [apply MutateProofs.C01_history|]. split.
+  - do 3 eexists. split; [vm_compute; reflexivity|]. repeat split.
+  - split.
+    + intros [|[|[|j]]]; vm_compute; try reflexivity. destruct j; reflexivity.
+    + do 3 eexists. split; [vm_compute; reflexivity|]. repeat split.
+Qed.
+
+(* two "delete the row if it has a cell" requests: serially the second never matches after the
+   first; in the schedule below (the second blocked behind the first) exactly one matches *)
+Definition C06_cam : call := mkCall (BCheckAndMutate C06_tbl [114%N] None [DeleteFromRow] []) 0 [].
+Example C06_cam_hyps :
+  (br_body (snd (step C06_s1 C06_cam)) = YMatched true ->
+   br_body (snd (step (fst (step C06_s1 C06_cam)) C06_cam)) <> YMatched true)
+  /\ snd (crun (init_cstate C06_s1 [[C06_cam]; [C06_cam]]) [0; 1; 0; 1; 0; 1; 1]%nat)
+     = [OAt; OAt; OAt; OBlocked; ODone (ok (YMatched true)); OAt; ODone (ok (YMatched false))].
+Proof. split; [intros _; vm_compute; discriminate|vm_compute; reflexivity]. Qed.
+
+(* a failing MutateRow (unknown family) among valid mutations: nothing of it is kept *)
+Example C06_failure_example :
+  let c := mkCall (BMutateRow C06_tbl [114%N] [SetCell [102%N] [113%N] 2000 [9%N]; SetCell [120%N] [113%N] 2000 [9%N]]) 0 [] in
+  snd (step C06_s1 c) = fail cUnknown /\ fst (step C06_s1 c) = C06_s1.
+Proof. vm_compute. split; reflexivity. Qed.
